@@ -83,6 +83,12 @@ type WAL struct {
 	// waits on the close before acquiring the lock and continuing.
 	triggerRotate chan uint64
 	awaitRotate   chan struct{}
+
+	// stateErr is set (under writeMu) when a state transaction failed at or
+	// after the point where it may have been committed to the meta store. The
+	// in-memory state may then no longer match what is on disk so we refuse all
+	// further writes until the WAL is re-opened.
+	stateErr error
 }
 
 type walOpt func(*WAL)
@@ -292,11 +298,15 @@ func (w *WAL) mutateStateLocked(tx stateTxn) error {
 
 	// Commit updates to meta
 	if err := w.metaDB.CommitState(newS.Persistent()); err != nil {
+		// We can't know if the commit made it to disk or not.
+		w.stateErr = err
 		return err
 	}
 
 	if postCommit != nil {
 		if err := postCommit(); err != nil {
+			// Meta is committed but we can't use the new state.
+			w.stateErr = err
 			return err
 		}
 	}
@@ -397,6 +407,10 @@ func (w *WAL) StoreLogs(logs []*raft.Log) error {
 	// Ensure queued rotation has completed before us if we raced with it for
 	// write lock.
 	w.awaitRotationLocked()
+
+	if w.stateErr != nil {
+		return fmt.Errorf("WAL must be re-opened after failed metadata update: %w", w.stateErr)
+	}
 
 	s, release := w.acquireState()
 	defer release()
@@ -509,6 +523,10 @@ func (w *WAL) DeleteRange(min uint64, max uint64) error {
 	// Ensure queued rotation has completed before us if we raced with it for
 	// write lock.
 	w.awaitRotationLocked()
+
+	if w.stateErr != nil {
+		return fmt.Errorf("WAL must be re-opened after failed metadata update: %w", w.stateErr)
+	}
 
 	s, release := w.acquireState()
 	defer release()
